@@ -78,6 +78,9 @@ type c19Job struct {
 	Start   bool       `json:"start"`  // start the async search (else: only resume/poll)
 	NoAsync bool       `json:"no_async,omitempty"`
 	PollMs  int        `json:"poll_ms,omitempty"`
+	// Extra: before the async searcher is (re)started, the fraction that was active is sealed and two new
+	// documents are ingested into a NEW fraction: it did not exist when the search was started
+	Extra bool `json:"extra,omitempty"`
 }
 
 type c19Result struct {
@@ -175,6 +178,14 @@ func c19Handle(raw json.RawMessage) any {
 			}
 		}
 	}
+	if job.Extra {
+		fm.SealForcedForTests()
+		d, m := vfrac.BuildBulk([]refdb.Doc{c19Doc(6), c19Doc(7)}, 1)
+		if err := fm.Append(context.Background(), d, m); err != nil {
+			panic(err)
+		}
+		fm.WaitIdle()
+	}
 	if job.NoAsync {
 		return res
 	}
@@ -242,6 +253,7 @@ type c19Case struct {
 	Req    c19Req    `json:"req"`
 	K      int       `json:"k"` // -1: no crash (plain async vs sync)
 	Torn   int       `json:"torn"`
+	Extra  bool      `json:"extra,omitempty"` // a new fraction appears between the crash and the restart
 }
 
 type c19Explorer struct {
@@ -340,6 +352,32 @@ func (e *c19Explorer) run(corp c19Corpus, base vcrash.FS, req c19Req, only *c19C
 			e.r.Cap("a resumed async search did not report done within the polling horizon")
 		case r2.Async != want:
 			e.r.Violation("resumed-result-differs "+sig, c, fmt.Sprintf("%s\nresumed %s\nsync    %s\nfiles=%v", s2, r2.Async, want, cs.FS.Listing()))
+		}
+		// the same crash state again, but a new fraction with two more matching documents appears before the
+		// restart: the resumed search must still end with the answer over the fractions that existed at start
+		if wasStarted && (only == nil || only.Extra) && !(j2.Died || j2.Hung) {
+			d4 := vfrac.MkTmp("c19r")
+			if err := cs.FS.Materialize(d4); err != nil {
+				panic(err)
+			}
+			var r4 c19Result
+			j4, err := e.pool.Do(c19Job{Dir: d4, Req: req, Start: false, PollMs: 30000, Extra: true}, &r4, 120*time.Second)
+			os.RemoveAll(d4)
+			if err != nil {
+				panic(err)
+			}
+			e.r.Add("evaluations", 1)
+			e.r.Add("restarts_with_new_fraction", 1)
+			cx := c
+			cx.Extra = true
+			switch {
+			case j4.Died || j4.Hung || r4.Err != "":
+				e.r.Violation("restart-with-new-fraction-failed "+sig+" "+normCause(firstCause(j4.Stderr)+r4.Err), cx, fmt.Sprintf("%s\nfiles=%v\n%s", s2, cs.FS.Listing(), tailStr(j4.Stderr, 1500)+r4.Err))
+			case !r4.Found || !r4.Done:
+				e.r.Cap("a resumed async search (new fraction variant) did not report done within the polling horizon")
+			case r4.Async != want:
+				e.r.Violation("resumed-result-includes-fractions-created-after-start "+sig, cx, fmt.Sprintf("%s\nresumed %s\nsync at start %s\nfiles=%v", s2, r4.Async, want, cs.FS.Listing()))
+			}
 		}
 		return !e.r.Expired()
 	})
